@@ -204,15 +204,15 @@ func genLine(t *rapid.T, o textOpts) string {
 		return strings.Repeat(rapid.SampledFrom([]string{"x", "-", "ab"}).Draw(t, "longch"), n)[:n]
 	case k < 85:
 		s := rapid.StringN(0, 12, -1).Draw(t, "str")
-		return stripLine(s)
+		return vhStripLine(s)
 	default:
 		b := rapid.SliceOfN(rapid.Byte(), 0, 8).Draw(t, "bytes")
-		return stripLine(string(b))
+		return vhStripLine(string(b))
 	}
 }
 
 // stripLine removes newlines and the documented-limitation shapes (CR at end of line).
-func stripLine(s string) string {
+func vhStripLine(s string) string {
 	s = strings.ReplaceAll(s, "\n", "")
 	return strings.TrimRight(s, "\r")
 }
@@ -245,7 +245,7 @@ func hasTrailingCR(s string) bool {
 	return strings.Contains(s, "\r\n") || strings.HasSuffix(s, "\r")
 }
 
-func validUTF8(s string) bool { return utf8.ValidString(s) }
+func vhValidUTF8(s string) bool { return utf8.ValidString(s) }
 
 // text features used by the non-trivial rules
 func textFeatures(s string) []string {
@@ -273,10 +273,10 @@ func textFeatures(s string) []string {
 	if !utf8.ValidString(s) {
 		f = append(f, "invalid_utf8")
 	}
-	return uniq(f)
+	return vhUniq(f)
 }
 
-func uniq(in []string) []string {
+func vhUniq(in []string) []string {
 	seen := map[string]bool{}
 	var out []string
 	for _, s := range in {
@@ -375,7 +375,7 @@ func (v Val) Text() string { return pretty.Sprint(v.Go()) }
 func strVal(s string) Val { return Val{Kind: "str", S: BS(s)} }
 
 func genShortStr(t *rapid.T) BS {
-	return BS(stripLine(rapid.SampledFrom([]string{"", "a", "hello", "---", "x y", "é", "[TestA - 1]", "tab\there", "q\"uote", "\xff"}).Draw(t, "sstr")))
+	return BS(vhStripLine(rapid.SampledFrom([]string{"", "a", "hello", "---", "x y", "é", "[TestA - 1]", "tab\there", "q\"uote", "\xff"}).Draw(t, "sstr")))
 }
 
 // genStructuredVal draws a non-string value (its formatted text is whatever kr/pretty makes of it).
